@@ -7,8 +7,10 @@ from pyvc.bounded import Driver
 
 CONDS = [('TRUE', True), ('FALSE', False), ('1', True), ('0', False), ('2.5', True), ('-1', True), ('0.0', False),
          ('K1', True), ('K2', False), ('K3', True), ('K4', False), ('K9', False), ('K1=K1', True), ('K3>5', False),
-         ('AND(K1,K3)', True), ('OR(K2,K4)', False), ('NOT(K2)', True)]
-CELLS = {'K1': True, 'K2': False, 'K3': 3, 'K4': 0, 'L1': 10, 'L2': 20}      # K9 stays empty
+         ('AND(K1,K3)', True), ('OR(K2,K4)', False), ('NOT(K2)', True),
+         # numbers that are tiny but not zero: a literal, a cell, the residue of a decimal sum, the smallest double
+         ('1E-16', True), ('K5', True), ('0.1+0.2-0.3', True), ('K6', True), ('-1E-300', True)]
+CELLS = {'K1': True, 'K2': False, 'K3': 3, 'K4': 0, 'K5': -3e-16, 'K6': 5e-324, 'L1': 10, 'L2': 20}      # K9 stays empty
 POISON = ['1/0', 'NOSUCHFUNCTION(1)', 'Z50', '#N/A', 'SPYFAIL()']            # Z50 is the formula's own cell (circular)
 
 
@@ -67,7 +69,7 @@ def _evaluator(cells):
     import xlcalculator
     from xlcalculator.xlfunctions import func_xltypes as T, xlerrors
     from drivers.common import build_model
-    d = {'K1': True, 'K2': False, 'K3': 3, 'K4': 0, 'L1': 10, 'L2': 20, 'M1': True, 'M2': 5, 'M3': 0}
+    d = dict(CELLS, M1=True, M2=5, M3=0)
     d.update(cells)
     model = build_model(d)
     ev = xlcalculator.Evaluator(model)
@@ -187,7 +189,7 @@ DRIVERS = [
 
 # ---- seeded random nestings of IF / AND / OR / NOT --------------------------------------------------------------------------------------------
 ATOMS = [('TRUE', True), ('FALSE', False), ('1', True), ('0', False), ('K1', True), ('K2', False), ('K3', True), ('K4', False),
-         ('K3>2', True), ('K3<2', False), ('K1=K1', True), ('L1>L2', False), ('2.5', True), ('0.0', False)]
+         ('K3>2', True), ('K3<2', False), ('K1=K1', True), ('L1>L2', False), ('2.5', True), ('0.0', False), ('K5', True), ('1E-16', True)]
 
 
 def _rand_cond(rng, depth):
